@@ -134,8 +134,19 @@ def oracle(c, st):
             for k in range(3):
                 if q[k] < Fr(o[k]) - TOL * (1 + g[k]) or q[k] > Fr(o[3 + k]) + TOL * (1 + g[k]): return ('C06:bbox', 'corner image outside the transformed box')
     elif op == 10:
-        det = (E[0][0] * (E[1][1] * E[2][2] - E[1][2] * E[2][1]) - E[0][1] * (E[1][0] * E[2][2] - E[1][2] * E[2][0]) + E[0][2] * (E[1][0] * E[2][1] - E[1][1] * E[2][0]))
-        if abs(det) > Fr(1, 10 ** 6) and (det < 0) != (o[0] == 1.0): return ('C06:handedness', 'changes_hands disagrees with the sign of the determinant')
+        terms = [E[0][0] * E[1][1] * E[2][2], E[0][0] * E[1][2] * E[2][1], E[0][1] * E[1][0] * E[2][2], E[0][1] * E[1][2] * E[2][0], E[0][2] * E[1][0] * E[2][1], E[0][2] * E[1][1] * E[2][0]]
+        det = terms[0] - terms[1] - terms[2] + terms[3] + terms[4] - terms[5]
+        # decided wherever the float evaluation cannot get the sign wrong: |det| well above its rounding error
+        if abs(det) > Fr(1, 10 ** 10) * sum(abs(x) for x in terms) and (det < 0) != (o[0] == 1.0):
+            return ('C06:handedness', 'changes_hands = %s but the determinant of the linear part is %.3g' % (o[0] == 1.0, float(det)))
+    elif op in (21, 22):
+        # hit data carried through a transform: point by the matrix, tangents by the linear part, normal by the inverse transpose
+        m, mi = (E, I) if op == 21 else (I, E)
+        if not close(o[0:3], apt(m, x[0:3]), mag_pt(m, x[0:3])): return ('C06:info-point', 'hit point not mapped by the matrix')
+        if not close(o[3:6], anrm(mi, x[3:6]), [sum(abs(mi[k][r_] * x[3 + k]) for k in range(3)) for r_ in range(3)]):
+            return ('C06:info-normal', 'the normal of transformed hit data is not the inverse-transpose image, so it does not stay perpendicular to the transformed surface')
+        if not close(o[6:9], avec(m, x[6:9]), mag_pt(m, x[6:9])): return ('C06:info-tangent', 'dpdu not mapped by the linear part')
+        if not close(o[9:12], avec(m, x[9:12]), mag_pt(m, x[9:12])): return ('C06:info-tangent', 'dpdv not mapped by the linear part')
     return None
 
 def replay_args(c):
